@@ -13,6 +13,7 @@ import glob
 import json
 import os
 import random
+from concurrent.futures import ThreadPoolExecutor
 from typing import Dict, List
 
 from .. import core, tlc
@@ -21,7 +22,7 @@ from ..core import Report, MachineryError
 ABIS = ["x64-elf", "x64-pe", "ia32-pe", "arm64-elf", "mips32-elf"]
 # exhaustive configs per tier: (cfg, timeout, ABIs the cases name)
 GEN = {"quick": [("CfiEval_q.cfg", 400, ABIS), ("CfiEval_deep_q.cfg", 400, ["x64-elf", "mips32-elf"])],
-       "thorough": [("CfiEval_t.cfg", 1500, ABIS), ("CfiEval_deep_t.cfg", 1500, ["x64-elf", "mips32-elf"])]}
+       "thorough": [("CfiEval_t.cfg", 3000, ABIS), ("CfiEval_deep_t.cfg", 3000, ["x64-elf", "mips32-elf"])]}
 SIM = {"quick": 50, "thorough": 1000}             # simulated behaviours per worker (4 workers, 12 tokens)
 WORKERS = int(os.environ.get("VERIF_TLC_WORKERS", "12"))
 JOBS = int(os.environ.get("VERIF_TLC_JOBS", "16"))
@@ -60,7 +61,7 @@ def brief(case: dict) -> dict:
 def collect(rep: Report, tier: str, wd: str, rng: random.Random, dest: str) -> int:
     seen = set()
     n = 0
-    part = os.path.join(wd, "part.ndjson")
+    part = ""
     with open(dest, "w") as out:
         def take(tag: str, abis: List[str]) -> int:
             nonlocal n
@@ -81,19 +82,32 @@ def collect(rep: Report, tier: str, wd: str, rng: random.Random, dest: str) -> i
                     k += 1
             return k
 
+        # the generation runs are independent: run them side by side
+        def gen(job):
+            kind, cfg, tmo, abis, dest_part, extra, workers = job
+            return tlc.generate("CfiEval.tla", cfg, "CASE", dest_part, timeout=tmo,
+                                workers=workers, extra=extra)
+
+        jobs = []
+        for i, (cfg, tmo, abis) in enumerate(GEN[tier]):
+            jobs.append(("deep" if "_deep_" in cfg else "mc", cfg, tmo, abis,
+                         os.path.join(wd, f"part{i}.ndjson"), None, max(2, WORKERS // 2)))
+        jobs.append(("sim", "CfiEval_sim.cfg", 900, ABIS, os.path.join(wd, "partsim.ndjson"),
+                     ["-simulate", f"num={SIM[tier]}", "-depth", "14",
+                      "-seed", str(core.seed() + 15)], 4))
+        with ThreadPoolExecutor(max_workers=len(jobs)) as ex:
+            results = list(ex.map(gen, jobs))
         rep.extra["generated_cases"] = 0
-        for cfg, tmo, abis in GEN[tier]:
-            res = tlc.generate("CfiEval.tla", cfg, "CASE", part, timeout=tmo, workers=WORKERS)
-            rep.add_mc(cfg, res)
-            rep.extra["generated_cases"] += take("mc" if cfg.startswith("CfiEval_deep") is False else "deep", abis)
-        res = tlc.generate("CfiEval.tla", "CfiEval_sim.cfg", "CASE", part, timeout=900,
-                           workers=4,
-                           extra=["-simulate", f"num={SIM[tier]}", "-depth", "14",
-                                  "-seed", str(core.seed() + 15)])
-        rep.extra["simulated_cases"] = take("sim", ABIS)
-        rep.extra["simulation"] = {"config": "CfiEval_sim.cfg", "behaviours": 4 * SIM[tier],
-                                   "tokens": 12, "wall_s": round(res["wall"], 1)}
-    os.remove(part)
+        for job, res in zip(jobs, results):
+            part = job[4]
+            if job[0] == "sim":
+                rep.extra["simulated_cases"] = take("sim", job[3])
+                rep.extra["simulation"] = {"config": job[1], "behaviours": 4 * SIM[tier],
+                                           "tokens": 12, "wall_s": round(res["wall"], 1)}
+            else:
+                rep.add_mc(job[1], res)
+                rep.extra["generated_cases"] += take(job[0], job[3])
+            os.remove(part)
     return n
 
 
@@ -114,10 +128,10 @@ def run(prop: str, tier: str, replay: str = None) -> int:
         else:
             collect(rep, tier, wd, rng, cases)
             rep.exhaustive = True
-        shards = core.split_file(cases, 16, wd, "cases")
+        shards = core.split_file(cases, 16 if tier == "quick" else 32, wd, "cases")
         traces = core.run_module_parallel("harness.cfieval.runner", shards, wd, "cfi")
         verdicts = tlc.validate_sharded("TraceCfiEval.tla", "TraceCfiEval.cfg", traces,
-                                        jobs=JOBS, timeout=1500)
+                                        jobs=JOBS, timeout=3600)
         case_by_id = {}
         with open(cases) as f:
             for line in f:
